@@ -1,14 +1,19 @@
 """C05 site-fact extractor, by DATA FLOW.
 
-The anchored functions of sktime/forecasting/compose/_reduce.py (`_sliding_window_transform` with its
-helpers, the `_predict_last_window` of the four reducers, `_DirRecReducer._fit`) and
-`_BaseWindowForecaster._get_last_window` are executed SYMBOLICALLY by a small interpreter for the
-Python subset they are written in.  What is compared with the expected shape is the VALUE the function
-computes (a term over its inputs: which array is allocated with which extents, which cells are
-written with which values under which conditions and loops, which slice of it reaches
-`estimator.predict`, what is returned), not the text or the order of the statements.  Integer
-expressions are kept as canonical linear forms over the base symbols, so `window_length + fh_max`,
-a temporary holding it, or the same sum written the other way round give the same generated term.
+The anchored code is reached from PUBLIC entry points and executed SYMBOLICALLY by a small interpreter
+for the Python subset it is written in: `predict(self, fh, X)` of the four strategy classes (for
+out-of-sample horizons: `fh.is_all_out_of_sample(cutoff)` is taken to hold), `fit(self, y, X, fh)` of the
+dirrec class, and the sliding-window transform, which is found by its ROLE (the one function of
+_reduce.py that `fit` of every strategy class reaches).  No private helper or hook is looked up by name:
+whatever `predict` / `fit` call is followed through the class hierarchy (sktime/base/_base.py,
+forecasting/base/_base.py, forecasting/base/_sktime.py, utils/datetime.py are parsed as well).  What is
+compared with the expected shape is the VALUE the entry point computes (a term over its inputs: which
+array is allocated with which extents, which cells are written with which values under which
+conditions and loops, which slice of it reaches `estimator.predict`, what is returned / raised), not
+the text or the order of the statements.  Integer expressions are kept as canonical linear forms over
+the base symbols, tests in a normal form (negations pushed inward, conjunctions flattened and
+ordered, comparisons only <, <=, ==), so `window_length + fh_max`, a temporary holding it, the same sum
+written the other way round, `n <= e` for `e >= n`, nested ifs for `a and b` give the same term.
 
 The interpreter follows (generally, not for one patch):
   * calls of module-level functions of the same file / of `sktime.utils.datetime._shift`, and
@@ -131,13 +136,60 @@ TRUE = ("bool", True)
 FALSE = ("bool", False)
 
 
+def _junction(tag, ts):
+    unit, zero = (TRUE, FALSE) if tag == "and" else (FALSE, TRUE)
+    out = []
+    for t in ts:
+        for x in (t[1:] if isinstance(t, tuple) and t and t[0] == tag else (t,)):
+            if x == unit:
+                continue
+            if x == zero:
+                return zero
+            if x not in out:
+                out.append(x)
+    if not out:
+        return unit
+    if len(out) == 1:
+        return out[0]
+    return (tag,) + tuple(sorted(out, key=repr))
+
+
+def mk_and(*ts):
+    return _junction("and", ts)
+
+
+def mk_or(*ts):
+    return _junction("or", ts)
+
+
+def mk_cmp(op, a, b):
+    """canonical comparison: only <, <=, == (operands of == in a fixed order)"""
+    if op == ">":
+        op, a, b = "<", b, a
+    elif op == ">=":
+        op, a, b = "<=", b, a
+    elif op == "==" and repr(b) < repr(a):
+        a, b = b, a
+    return ("cmp", op, a, b)
+
+
 def mk_not(t):
+    """negation normal form: De Morgan, not (a < b) == (b <= a)"""
     if t == TRUE:
         return FALSE
     if t == FALSE:
         return TRUE
-    if isinstance(t, tuple) and t and t[0] == "not":
-        return t[1]
+    if isinstance(t, tuple) and t:
+        if t[0] == "not":
+            return t[1]
+        if t[0] == "and":
+            return mk_or(*[mk_not(x) for x in t[1:]])
+        if t[0] == "or":
+            return mk_and(*[mk_not(x) for x in t[1:]])
+        if t[0] == "cmp" and t[1] == "<":
+            return ("cmp", "<=", t[3], t[2])
+        if t[0] == "cmp" and t[1] == "<=":
+            return ("cmp", "<", t[3], t[2])
     return ("not", t)
 
 
@@ -152,6 +204,10 @@ def mk_cond(t, a, b):
         return a
     if a is b:
         return a
+    if isinstance(a, tuple) and a and a[0] == "cond" and len(a) == 4 and not isinstance(b, (Arr, ListObj)) \
+            and a[3] == b:
+        # nested ifs with the same alternative == one if with the merged condition
+        return mk_cond(mk_and(t, a[1]), a[2], b)
     if isinstance(a, tuple) and isinstance(b, tuple) and a and b and a[0] == b[0] == "tuple" \
             and len(a) == len(b):
         # a conditional pair is the pair of the conditionals
@@ -230,9 +286,11 @@ PURE_NP = ("zeros",)
 
 
 class Interp:
-    def __init__(self, world, modname, cls=None, opaque_funcs=(), int_attrs=("cutoff", "window_length_")):
+    def __init__(self, world, modname, cls=None, opaque_funcs=(), int_attrs=("cutoff", "window_length_"),
+                 assume_true=()):
         self.w = world
         self.int_attrs = set(int_attrs)   # attributes of self that are integers (integer time index)
+        self.assume_true = set(assume_true)   # methods of other objects assumed to answer True
         self.pending = []                 # (test, exception): the call just made raises unless test
         self.loop_base = 0                # loops opened by callers of the function being executed
         self.modname = modname
@@ -326,17 +384,18 @@ class Interp:
 
     def ev_BoolOp(self, e, env):
         vs = [self.ev(x, env) for x in e.values]
-        tag = "and" if isinstance(e.op, ast.And) else "or"
-        out = []
-        for v in vs:
-            if v == (TRUE if tag == "and" else FALSE):
-                continue
-            if v == (FALSE if tag == "and" else TRUE):
-                return v
-            out.append(v)
-        if not out:
-            return TRUE if tag == "and" else FALSE
-        return out[0] if len(out) == 1 else (tag,) + tuple(out)
+        return mk_and(*vs) if isinstance(e.op, ast.And) else mk_or(*vs)
+
+    def ev_JoinedStr(self, e, env):
+        return ("fstr",)
+
+    def ev_Dict(self, e, env):
+        items = []
+        for k, v in zip(e.keys, e.values):
+            if not (isinstance(k, ast.Constant) and isinstance(k.value, str)):
+                raise Unsupported("dict key: " + _u(e))
+            items.append((k.value, self.ev(v, env)))
+        return ("dict",) + tuple(items)
 
     def ev_Compare(self, e, env):
         if len(e.ops) != 1:
@@ -359,8 +418,8 @@ class Interp:
                  "==": a.c == b.c, "!=": a.c != b.c}[name]
             return TRUE if r else FALSE
         if name == "!=":
-            return mk_not(("cmp", "==", a, b))
-        return ("cmp", name, a, b)
+            return mk_not(mk_cmp("==", a, b))
+        return mk_cmp(name, a, b)
 
     def ev_IfExp(self, e, env):
         t = self.ev(e.test, env)
@@ -389,7 +448,12 @@ class Interp:
             if lo is None and hi is None:
                 return ("full",)
             return ("slice", lo, hi)
-        return ("at", self.ev(s, env))
+        v = self.ev(s, env)
+        if _is(v, "sliceobj", 3):
+            if v[1] is None and v[2] is None:
+                return ("full",)
+            return ("slice", v[1], v[2])
+        return ("at", v)
 
     def ev_Subscript(self, e, env):
         b = self.ev(e.value, env)
@@ -419,18 +483,41 @@ class Interp:
     def ev_Call(self, e, env):
         f = e.func
         fu = _u(f)
-        if any(isinstance(a, ast.Starred) for a in e.args) or any(k.arg is None for k in e.keywords):
+        if any(isinstance(a, ast.Starred) for a in e.args):
             raise Unsupported("star arguments: " + _u(e))
         if fu == "isinstance" and len(e.args) == 2:
             r = self.isinstance_(self.ev(e.args[0], env), e.args[1])
             if r is not None:
                 return r
         args = [self.ev(a, env) for a in e.args]
-        kw = {k.arg: self.ev(k.value, env) for k in e.keywords}
+        kw = {}
+        for k in e.keywords:
+            v = self.ev(k.value, env)
+            if k.arg is None:
+                # **d for a dict literal with string keys
+                if not _is(v, "dict"):
+                    raise Unsupported("** of something that is not a dict literal: " + _u(e))
+                for kk, vv in v[1:]:
+                    if kk in kw:
+                        raise Unsupported("duplicate keyword " + kk)
+                    kw[kk] = vv
+            else:
+                if k.arg in kw:
+                    raise Unsupported("duplicate keyword " + k.arg)
+                kw[k.arg] = v
+        if fu == "slice" and not kw and 1 <= len(args) <= 2:
+            lo, hi = (None, args[0]) if len(args) == 1 else args
+            lo = None if lo is None or lo == NONE else self.atomise(lo, e)
+            hi = None if hi == NONE else self.atomise(hi, e)
+            return ("sliceobj", lo, hi)
         # np.zeros
         if fu == "np.zeros":
+            if "shape" in kw and not args:
+                args = [kw.pop("shape")]
             if len(args) != 1 or kw:
                 raise Unsupported("np.zeros arguments: " + _u(e))
+            if _is(args[0], "list"):
+                args[0] = ("tuple",) + args[0][1:]
             shp = args[0][1:] if isinstance(args[0], tuple) and args[0][0] == "tuple" else (args[0],)
             shp = tuple(d if isinstance(d, Lin) or _is(d, "cond") else self.atomise(d, e) for d in shp)
             return Arr(shp, self.guards, self.loops)
@@ -449,6 +536,11 @@ class Interp:
                     tgt = (src, nm)
             if tgt and f.id not in self.opaque_funcs:
                 return self.inline(tgt[0], None, self.w.funcs[tgt], None, args, kw, e)
+            if tgt:
+                # a function we know but do not follow here: bind the arguments to its parameters,
+                # so that positional and keyword calls are the same call
+                env2 = self.bind(self.w.funcs[tgt], None, args, dict(kw), e)
+                return ("call", ("name", f.id), (), tuple(sorted(env2.items())))
             return ("call", ("name", f.id), tuple(args), tuple(sorted(kw.items())))
         if isinstance(f, ast.Attribute):
             recv = self.ev(f.value, env)
@@ -465,18 +557,15 @@ class Interp:
                 raise Unsupported("list method: " + _u(e))
             if isinstance(recv, Arr) and f.attr not in ("reshape", "ravel", "copy"):
                 raise Unsupported("method of a tracked array: " + _u(e))
+            if f.attr in self.assume_true and recv != ("name", "np"):
+                return TRUE
             v = ("mcall", recv, f.attr, tuple(args), tuple(sorted(kw.items())))
             if f.attr in SIDE_EFFECT_METHODS:
                 self.effects.append((f.attr, tuple(self.guards), tuple(self.loops), v))
             return v
         raise Unsupported("call: " + _u(e))
 
-    def inline(self, mn, cname, fn, selfv, args, kw, site):
-        key = (cname, fn.name)
-        if key in self.stack:
-            raise Unsupported("recursion through %s" % fn.name)
-        if len(self.stack) > 8:
-            raise Unsupported("call depth")
+    def bind(self, fn, selfv, args, kw, site):
         deco = [_u(d) for d in fn.decorator_list]
         if any(d not in ("staticmethod",) for d in deco):
             raise Unsupported("decorated function %s" % fn.name)
@@ -504,17 +593,31 @@ class Interp:
                 raise Unsupported("missing argument %s of %s" % (p, fn.name))
         if kw:
             raise Unsupported("unknown keyword arguments of %s: %s" % (fn.name, sorted(kw)))
+        return env
+
+    def inline(self, mn, cname, fn, selfv, args, kw, site):
+        key = (cname, fn.name)
+        if key in self.stack:
+            raise Unsupported("recursion through %s" % fn.name)
+        if len(self.stack) > 12:
+            raise Unsupported("call depth")
+        env = self.bind(fn, selfv, args, dict(kw), site)
         self.inlined.append(key)
         self.stack.append(key)
         old = (self.modname, self.loop_base)
         self.modname = mn
         self.loop_base = len(self.loopsets)
         try:
-            r = self.block(self.body(fn), env)
+            r = self.run(self.body(fn), env)
         finally:
             self.modname, self.loop_base = old
             self.stack.pop()
-        return self.strip_raises(NONE if r is None else r, fn.name)
+        return self.strip_raises(r, fn.name)
+
+    def run(self, stmts, env):
+        """the value a function body returns (None when it falls off the end)"""
+        r = self.block(stmts, env)
+        return r.v if isinstance(r, Ret) else _fold(r.items, NONE)
 
     def strip_raises(self, v, what):
         """the value of a call whose body may raise: the exceptional exits become pending conditions
@@ -590,116 +693,114 @@ class Interp:
         return ("sub", v, (("at", lin(k)),), 0)
 
     def block(self, stmts, env):
-        """returns the value returned / raised by the block, or None when it falls through"""
-        for pos, st in enumerate(stmts):
-            n0 = len(self.pending)
-            r = self.step(st, stmts[pos + 1:], env)
-            pend = self.pending[n0:]
-            del self.pending[n0:]
-            if pend:
-                # something called by this statement may raise: the rest runs only otherwise
-                if self.stack_loops_open():
-                    raise Unsupported("a call that may raise inside a loop: " + _u(st)[:60])
-                if r is _FALLTHROUGH:
-                    for t, _ in pend:
-                        self.guards.append(t)
-                    try:
-                        r = self.block(stmts[pos + 1:], env)
-                    finally:
-                        del self.guards[len(self.guards) - len(pend):]
-                    r = NONE if r is None else r
-                for t, exc in reversed(pend):
-                    r = mk_cond(t, r, ("raise", exc))
-                return r
-            if r is not _FALLTHROUGH:
-                return r
-        return None
+        """Ret(v): the block returns v on every path.  Part(items): it returns v_i if t_i (tested in
+        order) and falls through otherwise; what follows runs under `not t_i`"""
+        items = []
+        npush = 0
+        try:
+            for st in stmts:
+                n0 = len(self.pending)
+                r = self.step(st, env)
+                pend = self.pending[n0:]
+                del self.pending[n0:]
+                new = [(mk_not(t), ("raise", exc)) for t, exc in pend]
+                if isinstance(r, Ret):
+                    return Ret(_fold(items + new, r.v))
+                new += r.items
+                if new and self.stack_loops_open():
+                    raise Unsupported("return / raise / a call that may raise inside a loop: " + _u(st)[:60])
+                for t, _ in new:
+                    self.guards.append(mk_not(t))
+                    npush += 1
+                items += new
+            return Part(items)
+        finally:
+            if npush:
+                del self.guards[len(self.guards) - npush:]
 
-    def step(self, st, rest, env):
+    def step(self, st, env):
         if isinstance(st, ast.Expr):
             if isinstance(st.value, ast.Constant) and isinstance(st.value.value, str):
-                return _FALLTHROUGH
+                return _NOTHING
             if isinstance(st.value, ast.Call):
                 if _u(st.value.func) in ("warn", "warnings.warn"):
-                    return _FALLTHROUGH
+                    return _NOTHING
+                n0 = len(self.inlined)
                 v = self.ev(st.value, env)
-                if v == NONE or (_is(v, "mcall") and v[2] in SIDE_EFFECT_METHODS):
-                    return _FALLTHROUGH
+                if len(self.inlined) > n0 or v == NONE or (_is(v, "mcall") and v[2] in SIDE_EFFECT_METHODS):
+                    return _NOTHING      # followed into its body, or a recorded effect
             raise Unsupported("expression statement: " + _u(st))
         if isinstance(st, ast.Assign):
             v = self.ev(st.value, env)
             for t in st.targets:
                 self.assign(t, v, env, st)
-            return _FALLTHROUGH
+            return _NOTHING
         if isinstance(st, ast.AugAssign):
             if not isinstance(st.target, ast.Name):
                 raise Unsupported("augmented assignment: " + _u(st))
             v = self.ev(ast.BinOp(left=ast.Name(id=st.target.id, ctx=ast.Load()), op=st.op,
                                   right=st.value), env)
             self.assign(st.target, v, env, st)
-            return _FALLTHROUGH
+            return _NOTHING
         if isinstance(st, ast.Return):
             if self.stack_loops_open():
                 raise Unsupported("return inside a loop")
-            return NONE if st.value is None else self.ev(st.value, env)
+            return Ret(NONE if st.value is None else self.ev(st.value, env))
         if isinstance(st, ast.Raise):
             if self.stack_loops_open():
                 raise Unsupported("raise inside a loop")
             exc = st.exc.func if isinstance(st.exc, ast.Call) else st.exc
-            return ("raise", _u(exc))
+            return Ret(("raise", _u(exc)))
         if isinstance(st, ast.Assert):
             t = self.ev(st.test, env)
             if t == FALSE:
                 raise Unsupported("assert that always fails: " + _u(st))
             if t != TRUE:
                 self.pending.append((t, "AssertionError"))
-            return _FALLTHROUGH
+            return _NOTHING
         if isinstance(st, ast.If):
-            return self.if_(st, rest, env)
+            return self.if_(st, env)
         if isinstance(st, ast.For):
             self.for_(st, env)
-            return _FALLTHROUGH
+            return _NOTHING
         if isinstance(st, ast.Pass):
-            return _FALLTHROUGH
+            return _NOTHING
         raise Unsupported("statement %s: %s" % (type(st).__name__, _u(st)[:80]))
 
     def stack_loops_open(self):
         """is a loop of the function being executed open (loops of its callers do not count)"""
         return len(self.loopsets) > self.loop_base
 
-    def if_(self, st, rest, env):
+    def if_(self, st, env):
         t = self.ev(st.test, env)
         if t == TRUE or t == FALSE:
-            r = self.block(st.body if t == TRUE else st.orelse, env)
-            return _FALLTHROUGH if r is None else r
+            return self.block(st.body if t == TRUE else st.orelse, env)
         ea, eb = dict(env), dict(env)
         sa, sb = dict(self.selfattrs), dict(self.selfattrs)
         self.guards.append(t)
         self.selfattrs = sa
-        ra = self.block(st.body, ea)
-        self.guards[-1] = mk_not(t)
-        self.selfattrs = sb
-        rb = self.block(st.orelse, eb)
-        self.guards.pop()
-        if ra is not None and rb is not None:
+        try:
+            ra = self.block(st.body, ea)
+            self.guards[-1] = mk_not(t)
+            self.selfattrs = sb
+            rb = self.block(st.orelse, eb)
+        finally:
+            self.guards.pop()
+        if isinstance(ra, Ret) and isinstance(rb, Ret):
             self.selfattrs = sa
-            return mk_cond(t, ra, rb)
-        if ra is not None or rb is not None:
-            if self.stack_loops_open():
-                raise Unsupported("return inside a loop")
-            # guard clause: the rest of the block runs on the other path only
-            live_env, live_sa, g = (eb, sb, mk_not(t)) if ra is not None else (ea, sa, t)
-            self.selfattrs = live_sa
-            self.guards.append(g)
-            try:
-                rr = self.block(rest, live_env)
-            finally:
-                self.guards.pop()
+            return Ret(mk_cond(t, ra.v, rb.v))
+        if isinstance(ra, Ret):
+            # guard clause: what follows runs on the other path only
+            self.selfattrs = sb
             env.clear()
-            env.update(live_env)
-            rr = NONE if rr is None else rr
-            return mk_cond(t, ra, rr) if ra is not None else mk_cond(t, rr, rb)
-        # merge
+            env.update(eb)
+            return Part([(t, ra.v)] + rb.items)
+        if isinstance(rb, Ret):
+            self.selfattrs = sa
+            env.clear()
+            env.update(ea)
+            return Part([(mk_not(t), rb.v)] + ra.items)
+        # both fall through: merge what they bound
         self.selfattrs = {}
         for k in set(sa) | set(sb):
             va, vb = sa.get(k, ("undef",)), sb.get(k, ("undef",))
@@ -712,7 +813,7 @@ class Interp:
                 env[k] = ("undef",)
             else:
                 env[k] = mk_cond(t, va, vb)
-        return _FALLTHROUGH
+        return Part([(mk_and(t, u), v) for u, v in ra.items] + [(mk_and(mk_not(t), u), v) for u, v in rb.items])
 
     @staticmethod
     def same(a, b):
@@ -740,6 +841,17 @@ class Interp:
             bound = lin(("len", seq))
             binds = {st.target.elts[0].id: lin(lv),
                      st.target.elts[1].id: ("sub", seq, (("at", lin(lv)),), 0)}
+        elif it.func.id == "zip" and len(it.args) == 2 and isinstance(st.target, ast.Tuple) \
+                and len(st.target.elts) == 2 and all(isinstance(x, ast.Name) for x in st.target.elts) \
+                and isinstance(it.args[0], ast.Call) and _u(it.args[0].func) == "range" \
+                and len(it.args[0].args) == 1 and not it.args[0].keywords:
+            # zip(range(n), xs): the shorter of the two; we need n == len(xs) to call it one loop
+            seq = self.ev(it.args[1], env)
+            bound = self.atomise(self.ev(it.args[0].args[0], env), it)
+            if bound != lin(("len", seq)):
+                raise Unsupported("zip of a range and a sequence of another length: " + _u(it))
+            binds = {st.target.elts[0].id: lin(lv),
+                     st.target.elts[1].id: ("sub", seq, (("at", lin(lv)),), 0)}
         else:
             raise Unsupported("loop header: " + _u(st.target) + " in " + _u(it))
         assigned = set()
@@ -759,13 +871,30 @@ class Interp:
         finally:
             self.loops.pop()
             self.loopsets.pop()
-        if r is not None:
+        if isinstance(r, Ret) or r.items:
             raise Unsupported("return inside a loop")
         for n in assigned | set(binds):
             env[n] = ("undef",)
 
 
-_FALLTHROUGH = object()
+class Ret:
+    def __init__(self, v):
+        self.v = v
+
+
+class Part:
+    def __init__(self, items):
+        self.items = list(items)
+
+
+_NOTHING = Part([])
+
+
+def _fold(items, final):
+    r = final
+    for t, v in reversed(items):
+        r = mk_cond(t, v, r)
+    return r
 
 
 # ------------------------------------------------------------------------------------------------
@@ -837,7 +966,7 @@ def _cond_reshape(v, test_ok, what):
 
 
 def _tab_self(t):
-    return t == ("cmp", "==", ("attr", ("name", "self"), "_estimator_scitype"), ("str", "tabular-regressor"))
+    return t == mk_cmp("==", ("attr", ("name", "self"), "_estimator_scitype"), ("str", "tabular-regressor"))
 
 
 def _slice(ix, what):
@@ -857,27 +986,70 @@ def aslin(v):
     return v if isinstance(v, Lin) else lin(v)
 
 
-def _swt(world, defs):
-    fn = world.funcs[("reduce", "_sliding_window_transform")]
+def _split(v):
+    """peel the exceptional exits off a function result: (normal value, [(raise condition, exception)])"""
+    exits = []
+    while _is(v, "cond", 4):
+        if _is(v[2], "raise"):
+            exits.append((v[1], v[2][1]))
+            v = v[3]
+        elif _is(v[3], "raise"):
+            exits.append((mk_not(v[1]), v[3][1]))
+            v = v[2]
+        else:
+            break
+    return v, exits
+
+
+STRATEGY_CLASSES = ("_DirectReducer", "_MultioutputReducer", "_RecursiveReducer", "_DirRecReducer")
+FH_MIXINS = ("_OptionalForecastingHorizonMixin", "_RequiredForecastingHorizonMixin")
+
+
+def _transform_function(world):
+    """the sliding-window transform BY ROLE: the one function defined in _reduce.py that the `fit` of
+    every strategy class reaches through its methods (whatever it and the methods in between are
+    called)"""
+    found = {}
+    for cname in STRATEGY_CLASSES:
+        seen, todo, hits = set(), ["fit"], set()
+        while todo:
+            m = todo.pop()
+            if m in seen:
+                continue
+            seen.add(m)
+            hit = world.method(cname, m)
+            if hit is None:
+                continue
+            for n in ast.walk(hit[2]):
+                if isinstance(n, ast.Call):
+                    if isinstance(n.func, ast.Attribute) and _u(n.func.value) == "self":
+                        todo.append(n.func.attr)
+                    elif isinstance(n.func, ast.Name) and ("reduce", n.func.id) in world.funcs:
+                        hits.add(n.func.id)
+        found[cname] = hits
+    names = set().union(*found.values())
+    _need(len(names) == 1 and all(h == names for h in found.values()),
+          "expected exactly one function of _reduce.py reached from fit of every strategy class, found %s"
+          % {k: sorted(v) for k, v in found.items()})
+    return names.pop()
+
+
+def _swt(world, defs, fname):
+    fn = world.funcs[("reduce", fname)]
     params = [a.arg for a in fn.args.args]
-    _need(params == ["y", "window_length", "fh", "X", "scitype"], "signature of _sliding_window_transform")
+    _need(params == ["y", "window_length", "fh", "X", "scitype"], "signature of " + fname)
     it = Interp(world, "reduce")
-    res = it.block(it.body(fn), {})
-    _need(res is not None, "_sliding_window_transform returns nothing")
-    asserts = []
-    # the helpers' asserts come first (whatever the order among themselves)
-    res = _peel_asserts(res, asserts)
+    res = it.run(it.body(fn), {})
+    res, exits = _split(res)
     fh0 = ("name", "fh")
+    asserts = set(_lits(tuple(mk_not(t) for t, exc in exits if exc == "AssertionError")))
     want = {("attr", fh0, "is_relative"), ("mcall", fh0, "is_all_out_of_sample", (), ())}
-    _need(set(asserts) == want, "_check_fh must assert fh.is_relative and fh.is_all_out_of_sample()",
+    _need(asserts == want, "the transform must assert fh.is_relative and fh.is_all_out_of_sample()",
           ("tuple",) + tuple(asserts))
-    # rejection: cond(test, raise ValueError, (yt, Xt))
-    _need(_is(res, "cond", 4), "no rejection test", res)
-    t, a, b = res[1:]
-    if _is(b, "raise"):
-        t, a, b = mk_not(t), b, a
-    _need(a == ("raise", "ValueError") and _is(b, "tuple", 3), "rejection must raise ValueError and "
-          "the function must return (yt, Xt)", res)
+    rej = [t for t, exc in exits if exc != "AssertionError"]
+    _need(len(rej) == 1 and [exc for t, exc in exits if exc != "AssertionError"] == ["ValueError"]
+          and _is(res, "tuple", 3), "one rejection raising ValueError, and (yt, Xt) returned otherwise", res)
+    t = rej[0]
     neg = False
     if _is(t, "not", 2):
         neg, t = True, t[1]
@@ -888,22 +1060,22 @@ def _swt(world, defs):
     fhi = ("mcall", ("mcall", fh0, "to_indexer", (), ()), "to_numpy", (), ())
     fm_atom = ("sub", fhi, (("at", lin(-1)),), 0)
     yv = ("mcall", ("name", "y"), "to_numpy", (), ())
-    y2 = ("cond", ("cmp", "==", lin(("attr", yv, "ndim")), lin(1)),
+    y2 = ("cond", mk_cmp("==", lin(("attr", yv, "ndim")), lin(1)),
           ("mcall", yv, "reshape", (lin(-1), lin(1)), ()), yv)
     zv = ("cond", ("isnone", ("name", "X")), y2,
           NP("column_stack", ("list", y2, ("mcall", ("name", "X"), "to_numpy", (), ()))))
     n_atom = ("sub", ("attr", zv, "shape"), (("at", lin(0)),), 0)
     nv_atom = ("sub", ("attr", zv, "shape"), (("at", lin(1)),), 0)
     ren = {wl_atom: "wl", fm_atom: "fm", n_atom: "n", fhi: "h"}
-    ops = {">": ">?", ">=": ">=?", "<": "<?", "<=": "<=?", "==": "=?"}
+    ops = {"<": "<?", "<=": "<=?", "==": "=?"}
     lhs = _lin_in(t[2], {"wl", "fm", "n"}, "rejection test (lhs)", ren)
     rhs = _lin_in(t[3], {"wl", "fm", "n"}, "rejection test (rhs)", ren)
     cmp = "(%s %s %s)" % (_gallina(lhs), ops[t[1]], _gallina(rhs))
     defs.append(("gen_reject", "wl fm n", "bool", "(negb %s)" % cmp if neg else cmp))
-    yt, xt = b[1], b[2]
+    yt, xt = res[1], res[2]
     # Xt: reshape(rows, -1) iff tabular
     X3, rows = _cond_reshape(
-        xt, lambda c: c == ("cmp", "==", ("name", "scitype"), ("str", "tabular-regressor")), "returned Xt")
+        xt, lambda c: c == mk_cmp("==", ("name", "scitype"), ("str", "tabular-regressor")), "returned Xt")
     _need(_is(X3, "sub", 4) and len(X3[2]) == 3 and X3[2][0] == FULL and X3[2][1] == FULL,
           "Xt must be Zt[:, :, :hi]", X3)
     flo, fhi_ = _slice(X3[2][2], "feature columns")
@@ -951,102 +1123,162 @@ def _swt(world, defs):
     _need(i_ is not None and j_ is not None, "fill needs both row bounds", Z0)
     defs.append(("gen_i", "wl fm k", "Z", _gallina(_lin_in(i_, {"wl", "fm", "k"}, "fill start", rk))))
     defs.append(("gen_j", "wl fm n k", "Z", _gallina(_lin_in(j_, {"wl", "fm", "n", "k"}, "fill stop", rk))))
-    _need(val == zv, "the fill writes something else than _concat_y_X(y, X) (y first, then the columns of X)",
-          val)
-    _need(not it.effects, "_sliding_window_transform has side effects")
+    _need(val == zv, "the fill writes something else than y (as a column) followed by the columns of X", val)
+    _need(not it.effects, fname + " has side effects")
 
 
-def _window_value(cls):
-    """what `self._get_last_window()` evaluates to (checked separately in _last_window)"""
-    return cls
+def _lits(guards):
+    """a path condition (tuple of tests) as the set of its conjuncts"""
+    t = mk_and(*guards)
+    return frozenset(t[1:]) if _is(t, "and") else frozenset() if t == TRUE else frozenset([t])
 
 
-def _predicts(world, defs, lw):
-    """the four _predict_last_window: the value handed to estimator.predict and what is returned"""
-    y_last, X_last = lw
-    XT = ("attr", X_last, "T")
+def _predicts(world, defs, fname):
+    """public entry points: `predict` of each strategy class (for out-of-sample relative horizons:
+    fh.is_all_out_of_sample(cutoff) is taken to hold) and `fit` of the dirrec class, followed through
+    whatever private methods they call"""
     wl = ("attr", SELF, "window_length_")
     cut = lin(("attr", SELF, "cutoff"))
     selfX = ("attr", SELF, "_X")
+    Xp = ("name", "X")
     used = {}
+    windows = []
 
-    def run(cname, params):
-        hit = world.method(cname, "_predict_last_window")
-        _need(hit is not None and hit[0] == cname, "%s._predict_last_window missing" % cname)
+    def run(cname, entry, params):
+        hit = world.method(cname, entry)
+        _need(hit is not None, "%s.%s missing" % (cname, entry))
         fn = hit[2]
-        _need([a.arg for a in fn.args.args] == params, "%s._predict_last_window signature" % cname)
-        it = Interp(world, hit[1], cls=cname, opaque_funcs=("_sliding_window_transform",))
-        env = {p: ("name", p) for p in params}
-        res = it.block(it.body(fn), env)
-        used[cname] = set(n for c, n in it.inlined)
+        _need([a.arg for a in fn.args.args][:len(params)] == params, "%s.%s signature" % (cname, entry))
+        it = Interp(world, hit[1], cls=cname, opaque_funcs=(fname,), assume_true=("is_all_out_of_sample",))
+        env = {a.arg: ("name", a.arg) for a in fn.args.args}
+        res = it.run(it.body(fn), env)
+        used.setdefault(cname, set()).update(n for c, n in it.inlined)
+        used[cname].add(entry)
         return it, res
 
-    def predictable_guard(res, what):
-        """cond(not predictable(y_last), nan(fh), rest) -> rest"""
-        _need(_is(res, "cond", 4), what + ": no _is_predictable guard", res)
-        t, a, b = res[1:]
-        ok = ("and", ("cmp", "==", lin(("len", y_last)), lin(wl)),
-              ("cmp", "==", lin(NP("sum", NP("isnan", y_last))), lin(0)),
-              ("cmp", "==", lin(NP("sum", NP("isinf", y_last))), lin(0)))
-        nan = NP("full", lin(("len", ("name", "fh"))), ("attr", ("name", "np"), "nan"))
-        _need(t == ok and b == nan, what + ": the NaN answer must be given exactly when the window "
-              "handed over by _get_last_window is not usable", res)
-        return a
+    def forecast(res, what):
+        """predict returns pd.Series(y_pred, index=fh'.to_absolute(cutoff)) with fh' the out-of-sample
+        part of self.fh; gives (y_pred, fh', exits)"""
+        v, exits = _split(res)
+        _need(_is(v, "mcall", 5) and v[1] == ("name", "pd") and v[2] == "Series" and len(v[3]) == 1
+              and len(v[4]) == 1 and v[4][0][0] == "index", what + ": predict must return "
+              "pd.Series(y_pred, index=...)", v)
+        idx = v[4][0][1]
+        fhv = ("mcall", ("attr", SELF, "fh"), "to_out_of_sample", (cut,), ())
+        _need(idx == ("mcall", fhv, "to_absolute", (cut,), ()),
+              what + ": the forecast must be labelled fh.to_absolute(cutoff)", idx)
+        return v[3][0], fhv, exits
+
+    def window(v, what):
+        """the label-based window self._y.loc[lo:hi].to_numpy(): returns (lo, hi)"""
+        def loc(x, base):
+            _need(_is(x, "mcall", 5) and x[2] == "to_numpy" and not x[3] and not x[4] and _is(x[1], "sub", 4)
+                  and x[1][1] == ("attr", ("attr", SELF, base), "loc") and len(x[1][2]) == 1,
+                  what + ": expected the label-based selection self.%s.loc[lo:hi].to_numpy()" % base, x)
+            return _slice(x[1][2][0], what)
+        return loc(v, "_y")
+
+    def xwindow(v, bounds, what):
+        _need(_is(v, "attr", 3) and v[2] == "T" and _is(v[1], "cond", 4) and v[1][1] == ("isnone", selfX)
+              and v[1][2] == NONE, what + ": X_last.T with X_last None when no X was given", v)
+        x = v[1][3]
+        _need(_is(x, "mcall", 5) and x[2] == "to_numpy" and not x[3] and not x[4] and _is(x[1], "sub", 4)
+              and x[1][1] == ("attr", selfX, "loc") and len(x[1][2]) == 1
+              and _slice(x[1][2][0], what) == bounds,
+              what + ": the window of X must be self._X.loc[lo:hi] with the bounds of y", x)
+
+    def unguard(hook, fhv, what):
+        """the hook answers NaN (np.full(len(fh), np.nan)) on one path: (condition of the other path,
+        its value)"""
+        _need(_is(hook, "cond", 4), what + ": no guard for an unusable window", hook)
+        nan = NP("full", lin(("len", fhv)), ("attr", ("name", "np"), "nan"))
+        if not isinstance(hook[3], (Arr, ListObj)) and hook[3] == nan:
+            return hook[1], hook[2]
+        _need(not isinstance(hook[2], (Arr, ListObj)) and hook[2] == nan,
+              what + ": one path must answer np.full(len(fh), np.nan)", hook)
+        return mk_not(hook[1]), hook[3]
+
+    def predictable_guard(t, y_last, what):
+        ok = mk_and(mk_cmp("==", lin(("len", y_last)), lin(wl)),
+                    mk_cmp("==", lin(NP("sum", NP("isnan", y_last))), lin(0)),
+                    mk_cmp("==", lin(NP("sum", NP("isinf", y_last))), lin(0)))
+        _need(t == ok, what + ": the NaN answer must be given exactly when the window that is fed has "
+              "not window_length values or holds NaN / inf", t)
 
     def ncols(v, src, what):
         want = mk_cond(("isnone", src), lin(1), lin(("sub", ("attr", src, "shape"), (("at", lin(1)),), 0)).add(lin(1)))
         _need(v == want, what + ": number of variables", v)
 
+    def norm_ix(ix):
+        return tuple(("slice", None, i[2]) if _is(i, "slice", 3) and i[1] == lin(0) else i for i in ix)
+
     def window_array(A, what):
-        """np.zeros((1, n_columns, wl)) <- y_last at [:, 0, :], X_last.T at [:, 1:, :] if self._X"""
+        """np.zeros((1, n_columns, wl)) <- y_last at [:, 0, :], X_last.T at [:, 1:, :] if self._X;
+        returns y_last"""
         _need(isinstance(A, Arr) and len(A.shape) == 3 and A.shape[0] == lin(1)
               and A.shape[2] == lin(wl), what + ": window array", A)
         ncols(A.shape[1], selfX, what)
         _need(len(A.writes) == 2, what + ": expected the two fills", A)
         w = sorted(A.writes, key=lambda x: len(x[0]))
-        _need(w[0] == ((), (), (FULL, ("at", lin(0)), FULL), y_last), what + ": X_pred[:, 0, :] = y_last", A)
-        _need(w[1] == ((mk_not(("isnone", selfX)),), (), (FULL, ("slice", lin(1), None), FULL), XT),
+        _need(not w[0][0] and not w[0][1] and w[0][2] == (FULL, ("at", lin(0)), FULL),
+              what + ": X_pred[:, 0, :] = y_last", A)
+        y_last = w[0][3]
+        b = window(y_last, what)
+        _need(_lits(w[1][0]) == {mk_not(("isnone", selfX))} and not w[1][1]
+              and w[1][2] == (FULL, ("slice", lin(1), None), FULL),
               what + ": X_pred[:, 1:, :] = X_last.T when X was given in fit", A)
+        xwindow(w[1][3], b, what)
+        windows.append((what, b))
+        return y_last
 
     def pred_input(v, what):
         x, rows = _cond_reshape(v, _tab_self, what)
         _need(aslin(rows) == lin(1), what + ": reshape(1, -1)", v)
         return x
 
+    def only_predicts(it, what):
+        bad = [e[0] for e in it.effects if e[0] not in ("predict", "setattr")]
+        _need(not bad and [e[0] for e in it.effects].count("predict") == 1,
+              what + ": exactly one estimator.predict site expected, effects %s" % [e[0] for e in it.effects])
+
+    nsteps = (lin(("len", ("attr", SELF, "estimators_"))), lin(("len", ("attr", SELF, "fh"))))
+    PARAMS = ["self", "fh", "X"]
+
     # --- direct
-    it, res = run("_DirectReducer", ["self", "fh", "X", "return_pred_int", "alpha"])
-    yp = predictable_guard(res, "direct")
-    _need(isinstance(yp, Arr) and yp.shape == (lin(("len", ("name", "fh"))),) and len(yp.writes) == 1,
+    it, res = run("_DirectReducer", "predict", PARAMS)
+    hook, fhv, exits = forecast(res, "direct")
+    tguard, yp = unguard(hook, fhv, "direct")
+    _need(isinstance(yp, Arr) and yp.shape == (lin(("len", fhv)),) and len(yp.writes) == 1,
           "direct: y_pred = np.zeros(len(fh)) filled by one loop", yp)
     (g, lp, ix, val), = yp.writes
-    # one regressor is fitted per step of self.fh: both counts name the same loop
-    nsteps = (lin(("len", ("attr", SELF, "estimators_"))), lin(("len", ("attr", SELF, "fh"))))
     _need(not g and len(lp) == 1 and lp[0][1] in nsteps
           and ix == (("at", lin(lp[0][0])),), "direct: y_pred[i] for every fitted estimator", yp)
     _need(_is(val, "mcall", 5) and val[2] == "predict" and len(val[3]) == 1 and not val[4]
           and val[1] == ("sub", ("attr", SELF, "estimators_"), (("at", lin(lp[0][0])),), 0),
           "direct: y_pred[i] = estimators_[i].predict(X_pred)", val)
-    A = pred_input(val[3][0], "direct predict input")
-    window_array(A, "direct")
-    _need([e[0] for e in it.effects] == ["predict"], "direct: unexpected side effects", tuple(e[0] for e in it.effects))
+    y_last = window_array(pred_input(val[3][0], "direct predict input"), "direct")
+    predictable_guard(tguard, y_last, "direct")
+    only_predicts(it, "direct")
 
     # --- multioutput
-    it, res = run("_MultioutputReducer", ["self", "fh", "X", "return_pred_int", "alpha"])
-    yp = predictable_guard(res, "multioutput")
+    it, res = run("_MultioutputReducer", "predict", PARAMS)
+    hook, fhv, exits = forecast(res, "multioutput")
+    tguard, yp = unguard(hook, fhv, "multioutput")
     _need(_is(yp, "mcall", 5) and yp[2] == "ravel" and not yp[3] and _is(yp[1], "mcall", 5)
           and yp[1][2] == "predict" and yp[1][1] == ("attr", SELF, "estimator_") and len(yp[1][3]) == 1,
           "multioutput: return estimator_.predict(X_pred).ravel()", yp)
-    window_array(pred_input(yp[1][3][0], "multioutput predict input"), "multioutput")
-    _need([e[0] for e in it.effects] == ["predict"], "multioutput: unexpected side effects")
+    y_last = window_array(pred_input(yp[1][3][0], "multioutput predict input"), "multioutput")
+    predictable_guard(tguard, y_last, "multioutput")
+    only_predicts(it, "multioutput")
 
     # --- recursive
-    it, res = run("_RecursiveReducer", ["self", "fh", "X", "return_pred_int", "alpha"])
-    Xp = ("name", "X")
-    _need(_is(res, "cond", 4) and res[1] == ("and", mk_not(("isnone", selfX)), ("isnone", Xp))
-          and res[2] == ("raise", "ValueError"), "recursive: X must be passed if given in fit", res)
-    yp = predictable_guard(res[3], "recursive")
-    fm_atom = ("sub", ("mcall", ("name", "fh"), "to_relative", (cut,), ()), (("at", lin(-1)),), 0)
-    fhidx = ("mcall", ("name", "fh"), "to_indexer", (cut,), ())
+    it, res = run("_RecursiveReducer", "predict", PARAMS)
+    hook, fhv, exits = forecast(res, "recursive")
+    _need((mk_and(mk_not(("isnone", selfX)), ("isnone", Xp)), "ValueError") in exits,
+          "recursive: X must be passed to predict if it was given in fit", ("tuple",) + tuple(exits))
+    tguard, yp = unguard(hook, fhv, "recursive")
+    fm_atom = ("sub", ("mcall", fhv, "to_relative", (cut,), ()), (("at", lin(-1)),), 0)
+    fhidx = ("mcall", fhv, "to_indexer", (cut,), ())
     _need(_is(yp, "sub", 4) and yp[2] == (("at", fhidx),) and isinstance(yp[1], Arr),
           "recursive: return y_pred[fh.to_indexer(self.cutoff)]", yp)
     Y = yp[1]
@@ -1070,32 +1302,37 @@ def _predicts(world, defs, lw):
     _need(len(L.shape) == 3 and L.shape[0] == lin(1), "recursive: last = np.zeros((1, n_columns, len))", L)
     ncols(L.shape[1], Xp, "recursive")
     defs.append(("gen_rec_buf", "wl fm", "Z", _gallina(_lin_in(L.shape[2], {"wl", "fm"}, "recursive buffer length", ren))))
-    gx = (mk_not(("isnone", Xp)),)
+    gx = frozenset([mk_not(("isnone", Xp))])
     fills = [w for w in L.writes if not w[1]]
     fb = [w for w in L.writes if w[1]]
     _need(len(fills) == 3 and len(fb) == 1 and S[3] == 3 and L.writes.index(fb[0]) == 3,
           "recursive: three fills before the loop, the window is read before the feedback is written", L)
-    want = [((), (), (FULL, ("at", lin(0)), ("slice", None, lin(wl))), y_last),
-            (gx, (), (FULL, ("slice", lin(1), None), ("slice", None, lin(wl))), XT),
-            (gx, (), (FULL, ("slice", lin(1), None), ("slice", lin(wl), None)), ("attr", Xp, "T"))]
-    norm = [(w[0], w[1], tuple(("slice", None, i[2]) if _is(i, "slice", 3) and i[1] == lin(0) else i
-                               for i in w[2]), w[3]) for w in fills]
-    for wnt in want:
-        _need(wnt in norm, "recursive: fill %s missing" % _show(wnt), L)
+    norm = {(_lits(w[0]), norm_ix(w[2])): w[3] for w in fills}
+    k0 = (frozenset(), (FULL, ("at", lin(0)), ("slice", None, lin(wl))))
+    k1 = (gx, (FULL, ("slice", lin(1), None), ("slice", None, lin(wl))))
+    k2 = (gx, (FULL, ("slice", lin(1), None), ("slice", lin(wl), None)))
+    _need(set(norm) == {k0, k1, k2}, "recursive: fills last[:, 0, :wl], last[:, 1:, :wl], last[:, 1:, wl:]", L)
+    y_last = norm[k0]
+    b = window(y_last, "recursive")
+    xwindow(norm[k1], b, "recursive")
+    windows.append(("recursive", b))
+    _need(norm[k2] == ("attr", Xp, "T"), "recursive: last[:, 1:, wl:] = X.T (the X passed to predict)", norm[k2])
     g, lp2, ix, v = fb[0]
     _need(not g and lp2 == lp and len(ix) == 3 and ix[0] == FULL and ix[1] == ("at", lin(0))
           and ix[2][0] == "at" and v == ("sub", Y, (("at", lin(iv)),), 1),
           "recursive: last[:, 0, pos] = y_pred[i] after the prediction of step i", fb[0][2:])
     defs.append(("gen_rec_fb", "wl i", "Z", _gallina(_lin_in(ix[2][1], {"wl", "i"}, "recursive feedback position", ren))))
-    _need([e[0] for e in it.effects] == ["predict"], "recursive: unexpected side effects")
+    predictable_guard(tguard, y_last, "recursive")
+    only_predicts(it, "recursive")
 
     # --- dirrec
-    it, res = run("_DirRecReducer", ["self", "fh", "X", "return_pred_int", "alpha"])
-    _need(_is(res, "cond", 4) and res[1] == ("isnone", Xp) and res[3] == ("raise", "NotImplementedError"),
-          "dirrec: exogenous X refused", res)
-    Y = predictable_guard(res[2], "dirrec")
+    it, res = run("_DirRecReducer", "predict", PARAMS)
+    hook, fhv, exits = forecast(res, "dirrec")
+    _need((mk_not(("isnone", Xp)), "NotImplementedError") in exits, "dirrec: exogenous X refused at predict",
+          ("tuple",) + tuple(exits))
+    tguard, Y = unguard(hook, fhv, "dirrec")
     q = ("len", ("attr", SELF, "fh"))
-    _need(isinstance(Y, Arr) and Y.shape == (lin(("len", ("name", "fh"))),) and len(Y.writes) == 1,
+    _need(isinstance(Y, Arr) and Y.shape == (lin(("len", fhv)),) and len(Y.writes) == 1,
           "dirrec: y_pred = np.zeros(len(fh)) filled by one loop", Y)
     (g, lp, ix, val), = Y.writes
     _need(not g and len(lp) == 1 and lp[0][1] in nsteps and ix == (("at", lin(lp[0][0])),),
@@ -1116,39 +1353,45 @@ def _predicts(world, defs, lw):
     defs.append(("gen_dr_buf", "wl q", "Z", _gallina(_lin_in(F.shape[2], {"wl", "q"}, "dirrec buffer length", ren))))
     _need(len(F.writes) == 2 and S[3] == 1, "dirrec: one fill, window read before the feedback", F)
     f0, f1 = F.writes
-    i2 = tuple(("slice", None, i[2]) if _is(i, "slice", 3) and i[1] == lin(0) else i for i in f0[2])
-    _need(f0[:2] == ((), ()) and i2 == (FULL, ("at", lin(0)), ("slice", None, lin(wl))) and f0[3] == y_last,
+    _need(not f0[0] and not f0[1] and norm_ix(f0[2]) == (FULL, ("at", lin(0)), ("slice", None, lin(wl))),
           "dirrec: X_full[:, 0, :window_length] = y_last", f0[2:])
+    y_last = f0[3]
+    windows.append(("dirrec", window(y_last, "dirrec")))
     _need(not f1[0] and f1[1] == lp and len(f1[2]) == 3 and f1[2][0] == FULL
           and f1[2][1] in (FULL, ("at", lin(0))) and f1[2][2][0] == "at"
           and f1[3] == ("sub", Y, (("at", lin(iv)),), 1),
           "dirrec: X_full[:, :, pos] = y_pred[i] after the prediction of step i", f1[2:])
     defs.append(("gen_dr_fb", "wl i", "Z", _gallina(_lin_in(f1[2][2][1], {"wl", "i"}, "dirrec feedback position", ren))))
-    _need([e[0] for e in it.effects] == ["predict"], "dirrec: unexpected side effects")
+    predictable_guard(tguard, y_last, "dirrec")
+    only_predicts(it, "dirrec")
 
-    # --- dirrec fit
-    hit = world.method("_DirRecReducer", "_fit")
-    _need(hit is not None and hit[0] == "_DirRecReducer", "_DirRecReducer._fit missing")
-    fn = hit[2]
-    params = [a.arg for a in fn.args.args]
-    _need(params[:3] == ["self", "y", "X"], "_DirRecReducer._fit signature")
-    it = Interp(world, hit[1], cls="_DirRecReducer", opaque_funcs=("_sliding_window_transform",))
-    res = it.block(it.body(fn), {p: ("name", p) for p in params})
-    used["_DirRecReducer"] |= set(n for c, n in it.inlined)
-    _need(_is(res, "cond", 4) and res[1] == ("isnone", Xp) and res[3] == ("raise", "NotImplementedError"),
-          "dirrec fit: exogenous X refused", res)
+    # --- the window every strategy feeds: self._y.loc[cutoff - window_length_ + 1 : cutoff]
+    _need(all(b == windows[0][1] for _, b in windows), "the strategies feed different windows",
+          ("tuple",) + tuple(windows))
+    rw = {("attr", SELF, "cutoff"): "c", wl: "wl"}
+    defs.append(("gen_lw_lo", "wl c", "Z", _gallina(_lin_in(windows[0][1][0], {"wl", "c"}, "window start", rw))))
+    defs.append(("gen_lw_hi", "wl c", "Z", _gallina(_lin_in(windows[0][1][1], {"wl", "c"}, "window stop", rw))))
+
+    # --- dirrec fit, from the public `fit`
+    it, res = run("_DirRecReducer", "fit", ["self", "y", "X", "fh"])
+    v, exits = _split(res)
+    _need(v == SELF, "dirrec fit must return self", v)
+    _need((mk_not(("isnone", Xp)), "NotImplementedError") in exits, "dirrec fit: exogenous X refused",
+          ("tuple",) + tuple(exits))
     fits = [e for e in it.effects if e[0] == "fit"]
-    _need(len(fits) == 1, "dirrec fit: one estimator.fit in the loop")
+    _need(len(fits) == 1 and not [e for e in it.effects if e[0] == "predict"],
+          "dirrec fit: one estimator.fit in the loop")
     _, g, lp, v = fits[0]
-    _need(len(lp) == 1 and lp[0][1] == lin(q), "dirrec fit: loop over range(len(self.fh))", lp)
+    _need(len(lp) == 1 and lp[0][1] in (lin(q),), "dirrec fit: loop over range(len(self.fh))", lp)
     iv = lp[0][0]
     est = v[1]
     _need(est == ("call", ("name", "clone"), (("attr", SELF, "estimator"),), ()),
           "dirrec fit: a fresh clone of self.estimator per step", est)
     Xf, tgt = v[3]
-    swt = ("call", ("name", "_sliding_window_transform"), (("name", "y"),), (
+    swt = ("call", ("name", fname), (), (
         ("X", Xp), ("fh", ("mcall", ("attr", SELF, "fh"), "to_relative", (cut,), ())),
-        ("scitype", ("attr", SELF, "_estimator_scitype")), ("window_length", ("attr", SELF, "window_length"))))
+        ("scitype", ("attr", SELF, "_estimator_scitype")), ("window_length", ("attr", SELF, "window_length")),
+        ("y", ("name", "y"))))
     yt = ("sub", swt, (("at", lin(0)),), 0)
     xt0 = ("sub", swt, (("at", lin(1)),), 0)
     xt = ("cond", _tab_cmp_self(), NP("expand_dims", xt0, axis=lin(1)), xt0)
@@ -1175,47 +1418,7 @@ def _predicts(world, defs, lw):
 
 
 def _tab_cmp_self():
-    return ("cmp", "==", ("attr", SELF, "_estimator_scitype"), ("str", "tabular-regressor"))
-
-
-FH_MIXINS = ("_OptionalForecastingHorizonMixin", "_RequiredForecastingHorizonMixin")
-STRATEGY_CLASSES = ("_DirectReducer", "_MultioutputReducer", "_RecursiveReducer", "_DirRecReducer")
-
-
-def _last_window(world, defs):
-    """`_get_last_window` as every reducer class resolves it: the rows of self._y (and of self._X)
-    whose LABEL lies in [cutoff - window_length_ + 1, cutoff]"""
-    name = "_get_last_window"
-    vals = []
-    for cname in STRATEGY_CLASSES:
-        hit = world.method(cname, name)
-        _need(hit is not None, "%s does not resolve %s" % (cname, name))
-        c, mn, fn = hit
-        _need([a.arg for a in fn.args.args] == ["self"], "%s.%s signature" % (c, name))
-        it = Interp(world, mn, cls=cname)
-        res = it.block(it.body(fn), {"self": SELF})
-        _need(not it.effects, "%s.%s has side effects" % (c, name))
-        vals.append((c, res))
-    _need(all(v[1] == vals[0][1] for v in vals), "the reducers resolve %s to different windows" % name)
-    owner, res = vals[0]
-    _need(_is(res, "tuple", 3), "%s must return (y, X)" % name, res)
-
-    def loc(v, base, what):
-        _need(_is(v, "mcall", 5) and v[2] == "to_numpy" and not v[3] and not v[4] and _is(v[1], "sub", 4)
-              and v[1][1] == ("attr", ("attr", SELF, base), "loc") and len(v[1][2]) == 1,
-              what + ": expected the label-based selection self.%s.loc[lo:hi].to_numpy()" % base, v)
-        return _slice(v[1][2][0], what)
-    ylo, yhi = loc(res[1], "_y", "window of y")
-    _need(_is(res[2], "cond", 4) and res[2][1] == ("isnone", ("attr", SELF, "_X")) and res[2][2] == NONE,
-          "window of X: None when no X was given", res[2])
-    xlo, xhi = loc(res[2][3], "_X", "window of X")
-    _need((xlo, xhi) == (ylo, yhi), "X is sliced with other bounds than y", res)
-    ren = {("attr", SELF, "cutoff"): "c", ("attr", SELF, "window_length_"): "wl"}
-    lo = _lin_in(ylo, {"wl", "c"}, "window start", ren)
-    hi = _lin_in(yhi, {"wl", "c"}, "window stop", ren)
-    defs.append(("gen_lw_lo", "wl c", "Z", _gallina(lo)))
-    defs.append(("gen_lw_hi", "wl c", "Z", _gallina(hi)))
-    return res[1], res[2]
+    return mk_cmp("==", ("attr", SELF, "_estimator_scitype"), ("str", "tabular-regressor"))
 
 
 def _class_facts(world, used):
@@ -1229,8 +1432,6 @@ def _class_facts(world, used):
     for x in ("_BaseWindowForecaster",) + FH_MIXINS:
         _need(imp.get(x) == ("sktime_base", x),
               "%s is not imported from sktime.forecasting.base._sktime" % x)
-    _need(world.imports["sktime_base"].get("_shift") == ("datetime", "_shift"),
-          "_sktime.py does not import _shift from sktime.utils.datetime")
     reducers = {"_Reducer"}
     changed = True
     while changed:
@@ -1243,8 +1444,7 @@ def _class_facts(world, used):
           % len(reducers))
     for s in STRATEGY_CLASSES:
         _need(s in reducers, "%s does not derive from _Reducer" % s)
-    followed = set().union(*used.values()) | {"_predict_last_window", "_get_last_window", "_fit",
-                                              "_transform", "_is_predictable", "_predict_nan"}
+    followed = set().union(*used.values())
     for cn in sorted(reducers):
         c = classes[cn]
         if cn != "_Reducer":
@@ -1290,21 +1490,40 @@ Open Scope Z_scope.
 """
 
 
-def translate(repo):
+def _world(repo):
     mods = {}
     for key, rel in (("reduce", "sktime/forecasting/compose/_reduce.py"),
                      ("sktime_base", "sktime/forecasting/base/_sktime.py"),
+                     ("fbase", "sktime/forecasting/base/_base.py"),
+                     ("base", "sktime/base/_base.py"),
                      ("datetime", "sktime/utils/datetime.py")):
         with open(os.path.join(repo, rel)) as f:
             mods[key] = ast.parse(f.read())
     world = World(mods, {"sktime.forecasting.base._sktime": "sktime_base",
+                         "sktime.forecasting.base._base": "fbase",
                          "sktime.utils.datetime": "datetime",
                          "sktime.forecasting.compose._reduce": "reduce"})
+    return world
+
+
+def transform_function_name(repo):
+    """name of the sliding-window transform of _reduce.py, found by its role (see _transform_function)"""
+    return _transform_function(_world(repo))
+
+
+def translate(repo):
+    world = _world(repo)
     defs = []
-    _swt(world, defs)
-    lw = _last_window(world, defs)
-    used = _predicts(world, defs, lw)
+    fname = _transform_function(world)
+    _swt(world, defs, fname)
+    used = _predicts(world, defs, fname)
     _class_facts(world, used)
+    order = ["gen_reject", "gen_feat_hi", "gen_tgt_col", "gen_alloc_rows", "gen_alloc_cols", "gen_trunc_lo",
+             "gen_trunc_stop", "gen_nk", "gen_i", "gen_j", "gen_lw_lo", "gen_lw_hi", "gen_rec_lo",
+             "gen_rec_hi", "gen_rec_buf", "gen_rec_fb", "gen_dr_hi", "gen_dr_buf", "gen_dr_fb",
+             "gen_dr_fit_hi"]
+    _need(sorted(d[0] for d in defs) == sorted(order), "generated definitions %s" % [d[0] for d in defs])
+    defs.sort(key=lambda d: order.index(d[0]))
     out = [HEADER]
     for name, params, ty, body in defs:
         out.append("Definition %s (%s : Z) : %s := %s.\n" % (name, params, ty, body))
